@@ -37,12 +37,22 @@ def _const(c):
 
 
 class Folder:
-    def __init__(self, F):
+    def __init__(self, F, hooks=None):
         self.F = F
         self.cache = {}
+        self.hooks = hooks or {}     # callee key -> python function(list of argument values) -> value
 
     def call(self, key, args):
-        ck = (key, tuple(args))
+        try:
+            ck = (key, tuple(args))
+            hash(ck)
+        except TypeError:
+            ck = None
+        if ck is None:
+            f = self.F.fns.get(key)
+            if f is None:
+                raise Unsupported("call to non-local function %s" % key)
+            return self._run(f, f.d, list(args))
         if ck in self.cache:
             r = self.cache[ck]
             if isinstance(r, Exception):
@@ -130,6 +140,17 @@ class Folder:
             if e["k"] == "field" and isinstance(v, tuple) and v[0] == "tuple":
                 v = v[1 + e["i"]]
                 continue
+            if e["k"] == "field" and isinstance(v, tuple) and v[0] == "struct":
+                if e["n"] not in v[1]:
+                    raise Unsupported("field %s of model value" % e["n"])
+                v = v[1][e["n"]]
+                continue
+            if e["k"] == "index" and isinstance(v, tuple) and v[0] == "bytes":
+                i = env.get(e["l"])
+                if not isinstance(i, int) or i >= len(v[1]):
+                    raise Diverged("index out of bounds")
+                v = v[1][i]
+                continue
             raise Unsupported("projection %s" % e["k"])
         return v
 
@@ -166,6 +187,12 @@ class Folder:
             raise Unsupported("cast of non-integer")
         if k == "un":
             v = self._operand(f, body, env, rv["a"])
+            if rv["op"] == "PtrMetadata":
+                while isinstance(v, tuple) and v[0] == "ref":
+                    v = v[1]
+                if isinstance(v, tuple) and v[0] == "bytes":
+                    return len(v[1])
+                raise Unsupported("PtrMetadata of non-slice")
             if rv["op"] == "Not" and v in (0, 1):
                 return 1 - v
             raise Unsupported("unary %s" % rv["op"])
@@ -202,6 +229,10 @@ class Folder:
                 v = v[1]
             return v
         a = [deref(x) for x in args]
+        if base in self.hooks:
+            return self.hooks[base](a)
+        if key in self.hooks:
+            return self.hooks[key](a)
         if base in self.F.fns or key in self.F.fns:
             return self.call(key if key in self.F.fns else base, a)
         if base == "char::is_ascii_digit":
